@@ -197,11 +197,18 @@ impl World {
     /// Executes an operation against a shared, immutable world (what concurrent callers do).
     pub fn exec_ro(&self, op: &Op) -> (OpResult, Option<IssuerSlot>) {
         let mut new_issuer: Option<IssuerSlot> = None;
-        let res = self.exec_inner(op, &mut new_issuer);
+        let res = self.exec_inner(op, &mut new_issuer, None);
         (res, new_issuer)
     }
 
-    fn exec_inner(&self, op: &Op, new_issuer: &mut Option<IssuerSlot>) -> OpResult {
+    /// Like `exec_ro`, but with certificate parameters the caller built some other way than
+    /// `recipe.build()` (same value, different object history). Only for SelfSign/Issue/Csr.
+    pub fn exec_with_params(&self, op: &Op, params: rcgen::CertificateParams) -> OpResult {
+        let mut new_issuer: Option<IssuerSlot> = None;
+        self.exec_inner(op, &mut new_issuer, Some(params))
+    }
+
+    fn exec_inner(&self, op: &Op, new_issuer: &mut Option<IssuerSlot>, mut given: Option<rcgen::CertificateParams>) -> OpResult {
         let call0 = self.bus.n_calls();
         let mut res = OpResult { ret: Ret::Skipped("?"), artefacts: vec![], calls: vec![], params_preserved: None, params_detail: String::new() };
         match op {
@@ -210,7 +217,7 @@ impl World {
                     res.ret = Ret::Skipped("no such key");
                     return res;
                 };
-                let params = recipe.build();
+                let params = given.take().unwrap_or_else(|| recipe.build());
                 let expect = params.clone();
                 match guarded(|| params.self_signed(&k.kp)) {
                     Ok(Ok(cert)) => {
@@ -242,7 +249,7 @@ impl World {
                     return res;
                 };
                 let ik = &self.keys[iss.key];
-                let params = recipe.build();
+                let params = given.take().unwrap_or_else(|| recipe.build());
                 let expect = params.clone();
                 let r = match via {
                     SubjectVia::KeyPair => guarded(|| params.signed_by(&sk.kp, &iss.cert, &ik.kp)),
@@ -287,7 +294,7 @@ impl World {
                     res.ret = Ret::Skipped("no such key");
                     return res;
                 };
-                let params = recipe.build();
+                let params = given.take().unwrap_or_else(|| recipe.build());
                 let before = params.clone();
                 let attrs_b: Vec<rcgen::Attribute> = attrs.iter().map(|a| a.build()).collect();
                 let r = guarded(|| {
